@@ -4,11 +4,13 @@
   Small2Session.lean).  Property theorems only.
 
   A *session* is `openW`, any list of `WOp`s storing whole frames, then voc_close (terminator byte, header).
-  The code violates C04 for u-law / A-law mono (KF-VOC-MONO-G711: the terminator is counted as a frame) and C11 for
-  PCM_U8 (KF-VOC-UPDATE: the image after a header update re-opens one byte short): both full statements are refuted
-  by a witness and proved outside exactly those classes.
+  Since the repair of KF-VOC-MONO-G711 / KF-VOC-UPDATE (voc_close records where the audio ends, type 1 length =
+  datalength + 2, every block reader accepts a missing terminator) both statements hold at full strength for every
+  accepted configuration; the failures of the rule before the repair (SfModel/VocOld.lean: u-law / A-law mono re-opened
+  with one frame too many, PCM_U8 update images one byte short) stay as `…_old_rule` theorems.
 -/
 import SfModel.Voc
+import SfModel.VocOld
 import SfProofs.VocImage
 namespace Sf.C04Voc
 open Sf Sf.Small2 Sf.Voc
@@ -81,11 +83,11 @@ theorem voc_rate_exact9 (c : Cfg) (h : c.codec ≠ 5) : quant c = c.sr := by unf
 
 /-! ### the closed file -/
 
-/-- class of KF-VOC-MONO-G711 -/
+/-- class of the repaired KF-VOC-MONO-G711 -/
 def KF.monoLaw (c : Cfg) : Prop := (c.codec = 0x10 ∨ c.codec = 0x11) ∧ c.ch = 1
 instance (c : Cfg) : Decidable (KF.monoLaw c) := by unfold KF.monoLaw; infer_instance
 
-/-- class of KF-VOC-UPDATE -/
+/-- class of the repaired KF-VOC-UPDATE -/
 def KF.u8 (c : Cfg) : Prop := c.codec = 5
 instance (c : Cfg) : Decidable (KF.u8 c) := by unfold KF.u8; infer_instance
 
@@ -105,14 +107,14 @@ theorem wrapS32_nat (n : Nat) (h : n < 2 ^ 31) : wrapS 32 (n : Int) = n := by
 theorem field24 (n : Nat) (h : n < 2 ^ 24) : wrapU 24 (wrapS 32 (n : Int)) = n := by
   rw [wrapS32_nat n (by omega)]; exact wrapU_nat 24 n h
 
-/-- the fields `calc_length` leaves when `n` bytes follow the header -/
+/-- the fields `calc_length` leaves on an open handle when `n` bytes follow the header -/
 def calcFields (c : Cfg) (n : Nat) : Fields :=
   { filelength := ((c.hdrLen + n : Nat) : Int), datalength := ((c.hdrLen + n : Nat) : Int) - c.hdrLen,
     frames := (((c.hdrLen + n : Nat) : Int) - c.hdrLen) / ((c.bw : Nat) : Int) }
 
 theorem calcHdr_eq (c : Cfg) (n : Nat) : calcHdr (fmt c) (c.hdrLen + n) = hdr c (calcFields c n) := rfl
 
-theorem calc_datalength (c : Cfg) (n : Nat) : (calcFields c n).datalength + 1 = ((n + 1 : Nat) : Int) := by
+theorem calc_datalength (c : Cfg) (n : Nat) : (calcFields c n).datalength + 2 = ((n + 2 : Nat) : Int) := by
   simp only [calcFields]; omega
 
 theorem calc_frames (c : Cfg) (n : Nat) : (calcFields c n).frames = ((n / c.bw : Nat) : Int) := by
@@ -120,40 +122,53 @@ theorem calc_frames (c : Cfg) (n : Nat) : (calcFields c n).frames = ((n / c.bw :
   have e : ((c.hdrLen + n : Nat) : Int) - (c.hdrLen : Int) = (n : Int) := by omega
   rw [e, ← Int.natCast_ediv]
 
+theorem close_datalength (c : Cfg) (n : Nat) : (closeFields c n).datalength + 2 = ((n + 2 : Nat) : Int) := by
+  simp only [closeFields]; omega
+
+theorem close_frames (c : Cfg) (n : Nat) : (closeFields c n).frames = ((n / c.bw : Nat) : Int) := rfl
+
 theorem closed_eq (c : Cfg) (stale : Nat) (ops : List WOp) :
-    closedBytes c stale ops = hdr c (calcFields c ((opsData ops).length + 1)) ++ (opsData ops ++ [0]) := by
-  rw [Voc.closedBytes_eq, calcHdr_eq]
+    closedBytes c stale ops = hdr c (closeFields c (opsData ops).length) ++ (opsData ops ++ [0]) := Voc.closedBytes_eq c stale ops
 
 theorem snapshot_eq (c : Cfg) (stale : Nat) (ops : List WOp) :
     snapshotBytes c stale ops = hdr c (calcFields c (opsData ops).length) ++ opsData ops := by
   unfold Voc.snapshotBytes
   rw [Small2.snapshotBytes_eq (fmt c) (lawful c) stale ops]; rfl
 
-/-- the value of the type 9 length field when `n` bytes follow the header: whole frames among them, plus 12 -/
-theorem field9 (c : Cfg) (hwf : c.wf) (n : Nat) (hn : n + 12 < 2 ^ 24) :
-    wrapU 24 (wrapS 32 ((calcFields c n).frames * c.ch * bytewidth c.codec + 12)) = n / c.bw * c.bw + 12 := by
-  rw [calc_frames]
+/-- the value of the type 9 length field when the header is computed over `n` audio bytes: whole frames among them, plus 12 -/
+theorem field9 (c : Cfg) (f : Fields) (n : Nat) (hf : f.frames = ((n / c.bw : Nat) : Int)) (hn : n + 12 < 2 ^ 24) :
+    wrapU 24 (wrapS 32 (f.frames * c.ch * bytewidth c.codec + 12)) = n / c.bw * c.bw + 12 := by
+  rw [hf]
   have hle : n / c.bw * c.bw ≤ n := Nat.div_mul_le_self n c.bw
   have e : ((n / c.bw : Nat) : Int) * (c.ch : Int) * ((bytewidth c.codec : Nat) : Int) + 12 = ((n / c.bw * c.bw + 12 : Nat) : Int) := by
     have e2 : ((c.bw : Nat) : Int) = ((bytewidth c.codec : Nat) : Int) * ((c.ch : Nat) : Int) := by unfold Cfg.bw; exact Int.natCast_mul _ _
     rw [Int.natCast_add, Int.natCast_mul, e2, Int.mul_assoc, Int.mul_comm ((c.ch : Nat) : Int)]; rfl
   rw [e]; exact field24 _ (by omega)
 
-/-- **voc_reopen_info_partial.**  Outside the class of KF-VOC-MONO-G711, for every accepted configuration and every
-    session of whole frames (guard: the 3-byte block length), the closed file re-opens with the requested channels and
-    encoding, the quantised rate (`quant`: exact for the type 9 block, the divisor rules above for PCM_U8) and exactly
-    the frames written. -/
-theorem voc_reopen_info_partial (c : Cfg) (hwf : c.wf) (hk : ¬ KF.monoLaw c) (stale : Nat) (ops : List WOp) (hw : WholeFrames c.bw ops)
+theorem bw_pos (c : Cfg) (hwf : c.wf) : 0 < c.bw := by
+  unfold Cfg.bw bytewidth
+  rcases hwf.2.1 with g | g <;> rw [g] <;> split <;> decide
+
+theorem whole_div (D bw : Nat) (hm : D % bw = 0) : D / bw * bw = D := by
+  have := Nat.div_add_mod D bw
+  rw [hm, Nat.add_zero, Nat.mul_comm] at this; exact this
+
+/-- **voc_reopen_info (C04, full strength).**  For EVERY accepted configuration (PCM_U8 / PCM_16 / u-law / A-law, one
+    or two channels, any rate) and every session of whole frames (guard: the 3-byte block length), the closed file
+    re-opens with the requested channels and encoding, the quantised rate (`quant`: exact for the type 9 block, the
+    divisor rules above for PCM_U8) and exactly the frames written. -/
+theorem voc_reopen_info (c : Cfg) (hwf : c.wf) (stale : Nat) (ops : List WOp) (hw : WholeFrames c.bw ops)
     (hguard : (opsData ops).length + 14 < 2 ^ 24) :
     parse (closedBytes c stale ops) = .ok { ch := c.ch, fmt := c.fmtWord, sr := quant c, frames := (opsData ops).length / c.bw } := by
   have hm := opsData_whole c.bw ops hw
   rw [closed_eq]
   generalize hD : (opsData ops).length = D at hm hguard
   have hdl : (opsData ops ++ [0]).length = D + 1 := by simp [hD]
+  have hbpos := bw_pos c hwf
   obtain ⟨hcodec, hch, hsr1, hsr2⟩ := hwf
   by_cases h5 : c.codec = 5
-  · have hL : wrapU 24 (wrapS 32 ((calcFields c (D + 1)).datalength + 1)) = D + 2 := by
-      rw [calc_datalength]; exact field24 _ (by omega)
+  · have hL : wrapU 24 (wrapS 32 ((closeFields c D).datalength + 2)) = D + 2 := by
+      rw [close_datalength]; exact field24 _ (by omega)
     rcases hch with h1 | h2
     · rw [parse_image1 c ⟨hcodec, Or.inl h1, hsr1, hsr2⟩ h5 h1 _ (D + 2) hL _ (by rw [hdl]; omega) (by rw [hdl]; omega) (by rw [hdl]; omega)]
       have : c.bw = 1 := by unfold Cfg.bw bytewidth; rw [h5, h1]; decide
@@ -161,14 +176,8 @@ theorem voc_reopen_info_partial (c : Cfg) (hwf : c.wf) (hk : ¬ KF.monoLaw c) (s
     · rw [parse_image8 c ⟨hcodec, Or.inr h2, hsr1, hsr2⟩ h5 h2 _ (D + 2) hL _ (by rw [hdl]; omega) (by rw [hdl])]
       have : c.bw = 2 := by unfold Cfg.bw bytewidth; rw [h5, h2]; decide
       rw [hdl, this, h2]; simp
-  · have hbw : c.bw = 2 ∨ c.bw = 4 := by
-      unfold Cfg.bw bytewidth
-      unfold KF.monoLaw at hk
-      rcases hcodec with h | h | h | h <;> rcases hch with g | g <;> simp [h, g] at hk h5 ⊢
-    have hS := field9 c ⟨hcodec, hch, hsr1, hsr2⟩ (D + 1) (by omega)
-    have hdiv : (D + 1) / c.bw * c.bw = D := by
-      rcases hbw with h | h <;> rw [h] at hm ⊢ <;> omega
-    rw [hdiv] at hS
+  · have hS := field9 c (closeFields c D) D (close_frames c D) (by omega)
+    rw [whole_div D c.bw hm] at hS
     rw [parse_image9 c ⟨hcodec, hch, hsr1, hsr2⟩ h5 _ (D + 12) hS _ (by rw [hdl]; omega) (by rw [hdl]; omega)]
     rw [voc_rate_exact9 c h5, hdl]
     have : frames9 (D + 12) (42 + (D + 1)) c.bw = D / c.bw := by
@@ -176,7 +185,7 @@ theorem voc_reopen_info_partial (c : Cfg) (hwf : c.wf) (hk : ¬ KF.monoLaw c) (s
       have n1 : ¬ (((D + 12 : Nat) : Int) + 31 = ((42 + (D + 1) : Nat) : Int) + 1) := by omega
       rw [if_neg n1]
       unfold framesOf
-      have bpos : ((c.bw : Nat) : Int) > 0 := by rcases hbw with h | h <;> rw [h] <;> decide
+      have bpos : ((c.bw : Nat) : Int) > 0 := by exact_mod_cast hbpos
       have g1 : ((42 + (D + 1) : Nat) : Int) > ((42 : Nat) : Int) := by omega
       have g2 : ((42 + (D + 1) : Nat) : Int) - 1 > 0 := by omega
       rw [if_pos g1, if_pos g2, if_pos bpos]
@@ -184,74 +193,60 @@ theorem voc_reopen_info_partial (c : Cfg) (hwf : c.wf) (hk : ¬ KF.monoLaw c) (s
       rw [e, Int.tdiv_eq_ediv_of_nonneg (Int.natCast_nonneg _), ← Int.natCast_ediv, Int.toNat_natCast]
     rw [this]
 
-/-- **KF-VOC-MONO-G711, exactly.**  u-law / A-law with one channel: the block length counts the terminator, the
-    reader's "missing zero byte" rule then keeps it: `N` frames re-open as `N + 1`. -/
-theorem voc_mono_g711_counts_terminator (c : Cfg) (hwf : c.wf) (hk : KF.monoLaw c) (stale : Nat) (ops : List WOp)
-    (hguard : (opsData ops).length + 14 < 2 ^ 24) :
-    parse (closedBytes c stale ops) = .ok { ch := c.ch, fmt := c.fmtWord, sr := quant c, frames := (opsData ops).length + 1 } := by
-  rw [closed_eq]
-  generalize hD : (opsData ops).length = D at hguard
-  have hdl : (opsData ops ++ [0]).length = D + 1 := by simp [hD]
-  have h5 : c.codec ≠ 5 := by rcases hk.1 with h | h <;> rw [h] <;> decide
-  have hbw : c.bw = 1 := by unfold Cfg.bw bytewidth; rcases hk.1 with h | h <;> rw [h, hk.2] <;> decide
-  have hS := field9 c hwf (D + 1) (by omega)
-  rw [hbw, Nat.div_one, Nat.mul_one] at hS
-  rw [parse_image9 c hwf h5 _ (D + 1 + 12) hS _ (by rw [hdl]; omega) (by rw [hdl]; omega)]
-  rw [voc_rate_exact9 c h5, hdl, hbw]
-  have : frames9 (D + 1 + 12) (42 + (D + 1)) 1 = D + 1 := by
-    unfold frames9
-    have n1 : ((D + 1 + 12 : Nat) : Int) + 31 = ((42 + (D + 1) : Nat) : Int) + 1 := by omega
-    rw [if_pos n1]
-    exact framesOf_nat 42 (D + 1) 1 (by decide) |>.trans (by simp)
-  rw [this]
-
-/-- C04 at full strength for VOC … -/
-def voc_reopen_info_full : Prop :=
+/-- C04 at full strength for VOC, as a proposition about a writer / reader pair -/
+def reopenInfoFull (closed : Cfg → Nat → List WOp → List Byte) (prs : List Byte → ParseRes) : Prop :=
   ∀ (c : Cfg), c.wf → ∀ (stale : Nat) (ops : List WOp), WholeFrames c.bw ops → (opsData ops).length + 14 < 2 ^ 24 →
-    parse (closedBytes c stale ops) = .ok { ch := c.ch, fmt := c.fmtWord, sr := quant c, frames := (opsData ops).length / c.bw }
+    prs (closed c stale ops) = .ok { ch := c.ch, fmt := c.fmtWord, sr := quant c, frames := (opsData ops).length / c.bw }
+
+/-- … holds of the current code … -/
+theorem voc_reopen_info_full_holds : reopenInfoFull closedBytes parse :=
+  fun c hwf stale ops hw hg => voc_reopen_info c hwf stale ops hw hg
 
 def exLaw : Cfg := ⟨0x10, 1, 8000⟩
 def exU8 : Cfg := ⟨5, 2, 11025⟩
+def exU8m : Cfg := ⟨5, 1, 8000⟩
 def exPcm : Cfg := ⟨2, 2, 44100⟩
 def exOps : List WOp := [.write [1, 2, 3, 4] false, .update, .write [5, 6, 7, 8] true]
 
-/-- … is false of the code: three u-law mono frames re-open as four (findings/kf_voc_mono_ulaw.txt) -/
-theorem voc_reopen_info_full_false : ¬ voc_reopen_info_full := by
+/-- … and failed under the rule before the repair of KF-VOC-MONO-G711: three u-law mono frames re-opened as four
+    (findings/kf_voc_mono_ulaw.txt), with the old reader and with the current one -/
+theorem voc_mono_g711_old_rule :
+    KF.monoLaw exLaw ∧
+    Old.parse (Old.closedBytes exLaw 0 [.write [1, 2, 3] false]) = .ok ⟨1, 0x080010, 8000, 4⟩ ∧
+    parse (Old.closedBytes exLaw 0 [.write [1, 2, 3] false]) = .ok ⟨1, 0x080010, 8000, 4⟩ ∧
+    parse (closedBytes exLaw 0 [.write [1, 2, 3] false]) = .ok ⟨1, 0x080010, 8000, 3⟩ := by decide +kernel
+
+theorem voc_reopen_info_full_old_rule_fails : ¬ reopenInfoFull Old.closedBytes Old.parse := by
   intro h
   have := h exLaw (by decide) 0 [.write [1, 2, 3] false] (by decide) (by decide)
   exact absurd this (by decide +kernel)
 
-example : exPcm.wf ∧ ¬ KF.monoLaw exPcm ∧ WholeFrames exPcm.bw exOps ∧
+example : exPcm.wf ∧ WholeFrames exPcm.bw exOps ∧
     parse (closedBytes exPcm 7 exOps) = .ok ⟨2, 0x080002, 44100, 2⟩ := by decide +kernel
 example : exU8.wf ∧ parse (closedBytes exU8 7 exOps) = .ok ⟨2, 0x080005, 11025, 4⟩ := by decide +kernel
-example : KF.monoLaw exLaw ∧ parse (closedBytes exLaw 0 [.write [1, 2, 3] false]) = .ok ⟨1, 0x080010, 8000, 4⟩ := by decide +kernel
+example : exU8m.wf ∧ parse (closedBytes exU8m 7 exOps) = .ok ⟨1, 0x080005, 8000, 8⟩ := by decide +kernel
+example : exLaw.wf ∧ parse (closedBytes exLaw 0 [.write [1, 2, 3] false]) = .ok ⟨1, 0x080010, 8000, 3⟩ := by decide +kernel
 
-/-- **voc_frames_bound.**  `N ≤ F ≤ N + 1` for every configuration; `F = N` outside the known-finding class (the
-    terminator byte is the one "pad" the container has, and it must not be counted). -/
+/-- **voc_frames_bound.**  `F = N` for every configuration: the terminator byte is never counted. -/
 theorem voc_frames_bound (c : Cfg) (hwf : c.wf) (stale : Nat) (ops : List WOp) (hw : WholeFrames c.bw ops)
     (hguard : (opsData ops).length + 14 < 2 ^ 24) :
     ∃ F, parse (closedBytes c stale ops) = .ok { ch := c.ch, fmt := c.fmtWord, sr := quant c, frames := F } ∧
-      (opsData ops).length / c.bw ≤ F ∧ F ≤ (opsData ops).length / c.bw + 1 ∧ (¬ KF.monoLaw c → F = (opsData ops).length / c.bw) := by
-  by_cases hk : KF.monoLaw c
-  · refine ⟨(opsData ops).length + 1, voc_mono_g711_counts_terminator c hwf hk stale ops hguard, ?_, ?_, fun h => absurd hk h⟩
-    · exact Nat.le_trans (Nat.div_le_self _ _) (Nat.le_succ _)
-    · have hbw : c.bw = 1 := by unfold Cfg.bw bytewidth; rcases hk.1 with h | h <;> rw [h, hk.2] <;> decide
-      rw [hbw, Nat.div_one]; exact Nat.le_refl _
-  · exact ⟨_, voc_reopen_info_partial c hwf hk stale ops hw hguard, Nat.le_refl _, Nat.le_succ _, fun _ => rfl⟩
+      F = (opsData ops).length / c.bw :=
+  ⟨_, voc_reopen_info c hwf stale ops hw hguard, rfl⟩
 
 example : (4 * 2) / 2 = 4 := by decide
 
 /-- **voc_size_fields.**  The closed file is the header, the audio and one terminator byte; the header is the one
-    `voc_write_header` computes from "audio + terminator" bytes (`calcFields`): type 1 length field = audio + 2 (rate
-    and compression bytes + audio), type 9 length field = 12 + the whole frames among audio + 1 bytes. -/
+    `voc_write_header` computes from the audio bytes alone (`closeFields`): type 1 length field = audio + 2 (rate and
+    compression bytes + audio), type 9 length field = 12 + the whole frames among the audio bytes. -/
 theorem voc_size_fields (c : Cfg) (stale : Nat) (ops : List WOp) (bytes : List Byte) (D : Nat)
     (hbytes : bytes = closedBytes c stale ops) (hD : D = (opsData ops).length) :
-    bytes.length = c.hdrLen + D + 1 ∧ bytes.drop c.hdrLen = opsData ops ++ [0] ∧ bytes.take c.hdrLen = hdr c (calcFields c (D + 1)) ∧
-    (calcFields c (D + 1)).datalength + 1 = ((D + 2 : Nat) : Int) ∧ (calcFields c (D + 1)).frames = (((D + 1) / c.bw : Nat) : Int) := by
+    bytes.length = c.hdrLen + D + 1 ∧ bytes.drop c.hdrLen = opsData ops ++ [0] ∧ bytes.take c.hdrLen = hdr c (closeFields c D) ∧
+    (closeFields c D).datalength + 2 = ((D + 2 : Nat) : Int) ∧ (closeFields c D).frames = ((D / c.bw : Nat) : Int) := by
   rw [closed_eq, ← hD] at hbytes
-  have hl := hdr_length c (calcFields c (D + 1))
+  have hl := hdr_length c (closeFields c D)
   refine ⟨by rw [hbytes, List.length_append, hl, List.length_append, ← hD, List.length_singleton]; omega, by rw [hbytes]; exact drop_append_len _ _ _ hl,
-    by rw [hbytes]; exact take_append_len _ _ _ hl, calc_datalength c (D + 1), calc_frames c (D + 1)⟩
+    by rw [hbytes]; exact take_append_len _ _ _ hl, close_datalength c D, close_frames c D⟩
 
 example : (closedBytes exPcm 7 exOps).length = 42 + 8 + 1 ∧ (closedBytes exPcm 7 exOps).drop 42 = opsData exOps ++ [0] := by decide +kernel
 
@@ -269,66 +264,67 @@ theorem voc_open_image_stale : (openW (fmt exPcm) 0).bytes ≠ (openW (fmt exPcm
 
 /-! ### header updates (C11) -/
 
-/-- **voc_snapshot_valid_partial.**  Type 9 files (PCM_16, u-law, A-law — everything outside the class of
-    KF-VOC-UPDATE): after any session prefix of whole frames the image a header update leaves parses with the same
-    parameters and exactly the frames written so far (the reader's "missing zero byte" rule), and is the 42-byte
-    header followed by the audio. -/
-theorem voc_snapshot_valid_partial (c : Cfg) (hwf : c.wf) (hk : ¬ KF.u8 c) (stale : Nat) (ops : List WOp) (hw : WholeFrames c.bw ops)
+/-- **voc_snapshot_valid (C11, full strength).**  For EVERY accepted configuration: after any session prefix of whole
+    frames the image a header update leaves parses with the same parameters and exactly the frames written so far (the
+    readers' "missing zero byte" rule), and is the header followed by the audio. -/
+theorem voc_snapshot_valid (c : Cfg) (hwf : c.wf) (stale : Nat) (ops : List WOp) (hw : WholeFrames c.bw ops)
     (hguard : (opsData ops).length + 14 < 2 ^ 24) :
     parse (snapshotBytes c stale ops) = .ok { ch := c.ch, fmt := c.fmtWord, sr := quant c, frames := (opsData ops).length / c.bw } ∧
-    ∃ h, h.length = 42 ∧ snapshotBytes c stale ops = h ++ opsData ops := by
+    ∃ h, h.length = c.hdrLen ∧ snapshotBytes c stale ops = h ++ opsData ops := by
   have hm := opsData_whole c.bw ops hw
-  have h5 : c.codec ≠ 5 := hk
-  have hh : c.hdrLen = 42 := by unfold Cfg.hdrLen; rw [if_neg h5]
   rw [snapshot_eq]
-  refine ⟨?_, _, by rw [hdr_length, hh], rfl⟩
+  refine ⟨?_, _, hdr_length c _, rfl⟩
   generalize hD : (opsData ops).length = D at hm hguard
-  have hbpos : 0 < c.bw := by
-    unfold Cfg.bw bytewidth
-    rcases hwf.2.1 with g | g <;> rw [g] <;> split <;> decide
-  have hS := field9 c hwf D (by omega)
-  have hdiv : D / c.bw * c.bw = D := by
-    have := Nat.div_add_mod D c.bw
-    rw [hm, Nat.add_zero, Nat.mul_comm] at this; exact this
-  rw [hdiv] at hS
-  rw [parse_image9 c hwf h5 _ (D + 12) hS _ (by rw [hD]; omega) (by rw [hD]; omega)]
-  rw [voc_rate_exact9 c h5, hD]
-  have : frames9 (D + 12) (42 + D) c.bw = D / c.bw := by
-    unfold frames9
-    have n1 : ((D + 12 : Nat) : Int) + 31 = ((42 + D : Nat) : Int) + 1 := by omega
-    rw [if_pos n1]
-    exact framesOf_nat 42 D c.bw hbpos
-  rw [this]
+  have hbpos := bw_pos c hwf
+  by_cases h5 : c.codec = 5
+  · have hL : wrapU 24 (wrapS 32 ((calcFields c D).datalength + 2)) = D + 2 := by
+      rw [calc_datalength]; exact field24 _ (by omega)
+    rcases hwf.2.1 with h1 | h2
+    · rw [parse_image1_missing c hwf h5 h1 _ (D + 2) hL _ (by rw [hD]; omega) (by rw [hD])]
+      have : c.bw = 1 := by unfold Cfg.bw bytewidth; rw [h5, h1]; decide
+      rw [hD, this, h1]; simp
+    · rw [parse_image8_missing c hwf h5 h2 _ (D + 2) hL _ (by rw [hD]; omega) (by rw [hD])]
+      have : c.bw = 2 := by unfold Cfg.bw bytewidth; rw [h5, h2]; decide
+      rw [hD, this, h2]
+  · have hS := field9 c (calcFields c D) D (calc_frames c D) (by omega)
+    rw [whole_div D c.bw hm] at hS
+    rw [parse_image9 c hwf h5 _ (D + 12) hS _ (by rw [hD]; omega) (by rw [hD]; omega)]
+    rw [voc_rate_exact9 c h5, hD]
+    have : frames9 (D + 12) (42 + D) c.bw = D / c.bw := by
+      unfold frames9
+      have n1 : ((D + 12 : Nat) : Int) + 31 = ((42 + D : Nat) : Int) + 1 := by omega
+      rw [if_pos n1]
+      exact framesOf_nat 42 D c.bw hbpos
+    rw [this]
 
-/-- **KF-VOC-UPDATE, exactly.**  PCM_U8: the length field written by an update is audio + 1, the reader takes the
-    last audio byte for the terminator: the image holds `D` audio bytes and re-opens with `(D − 1) / channels` frames. -/
-theorem voc_snapshot_u8_one_short (c : Cfg) (hwf : c.wf) (hk : KF.u8 c) (stale : Nat) (ops : List WOp)
-    (hguard : (opsData ops).length + 14 < 2 ^ 24) :
-    parse (snapshotBytes c stale ops) = .ok { ch := c.ch, fmt := c.fmtWord, sr := quant c, frames := ((opsData ops).length - 1) / c.ch } := by
-  have h5 : c.codec = 5 := hk
-  rw [snapshot_eq]
-  generalize hD : (opsData ops).length = D at hguard
-  have hL : wrapU 24 (wrapS 32 ((calcFields c D).datalength + 1)) = D + 1 := by
-    rw [calc_datalength]; exact field24 _ (by omega)
-  rcases hwf.2.1 with h1 | h2
-  · rw [parse_image1 c hwf h5 h1 _ (D + 1) hL _ (by rw [hD]; omega) (by rw [hD]; omega) (by rw [hD]; omega)]
-    rw [hD, h1]; simp
-  · rw [parse_image8 c hwf h5 h2 _ (D + 1) hL _ (by rw [hD]; omega) (by rw [hD])]
-    rw [hD, h2]
-
-/-- C11 at full strength for VOC … -/
-def voc_snapshot_valid_full : Prop :=
+/-- C11 at full strength for VOC, as a proposition about a writer / reader pair -/
+def snapshotValidFull (snap : Cfg → Nat → List WOp → List Byte) (prs : List Byte → ParseRes) : Prop :=
   ∀ (c : Cfg), c.wf → ∀ (stale : Nat) (ops : List WOp), WholeFrames c.bw ops → (opsData ops).length + 14 < 2 ^ 24 →
-    parse (snapshotBytes c stale ops) = .ok { ch := c.ch, fmt := c.fmtWord, sr := quant c, frames := (opsData ops).length / c.bw }
+    prs (snap c stale ops) = .ok { ch := c.ch, fmt := c.fmtWord, sr := quant c, frames := (opsData ops).length / c.bw }
 
-/-- … is false of the code: three stereo PCM_U8 frames, header update, the image re-opens with two (findings/kf_voc_update.txt) -/
-theorem voc_snapshot_valid_full_false : ¬ voc_snapshot_valid_full := by
+theorem voc_snapshot_valid_full_holds : snapshotValidFull snapshotBytes parse :=
+  fun c hwf stale ops hw hg => (voc_snapshot_valid c hwf stale ops hw hg).1
+
+/-- the rule before the repair of KF-VOC-UPDATE: three stereo PCM_U8 frames, header update, the image re-opened with
+    two (findings/kf_voc_update.txt); the current writer's image re-opens with three -/
+theorem voc_snapshot_u8_old_rule :
+    KF.u8 exU8 ∧
+    Old.parse (Old.snapshotBytes exU8 0 [.write [1, 2, 3, 4, 5, 6] false]) = .ok ⟨2, 0x080005, 11025, 2⟩ ∧
+    Old.parse (Old.snapshotBytes exU8m 0 [.write [1, 2, 3] false]) = .ok ⟨1, 0x080005, 8000, 2⟩ ∧
+    parse (snapshotBytes exU8 0 [.write [1, 2, 3, 4, 5, 6] false]) = .ok ⟨2, 0x080005, 11025, 3⟩ ∧
+    parse (snapshotBytes exU8m 0 [.write [1, 2, 3] false]) = .ok ⟨1, 0x080005, 8000, 3⟩ := by decide +kernel
+
+theorem voc_snapshot_valid_full_old_rule_fails : ¬ snapshotValidFull Old.snapshotBytes Old.parse := by
   intro h
   have := h exU8 (by decide) 0 [.write [1, 2, 3, 4, 5, 6] false] (by decide) (by decide)
   exact absurd this (by decide +kernel)
 
-example : ¬ KF.u8 exPcm ∧ parse (snapshotBytes exPcm 5 [.write [1, 2, 3, 4] false]) = .ok ⟨2, 0x080002, 44100, 1⟩ := by decide +kernel
-example : KF.u8 exU8 ∧ parse (snapshotBytes exU8 0 [.write [1, 2, 3, 4, 5, 6] false]) = .ok ⟨2, 0x080005, 11025, 2⟩ := by decide +kernel
+/-- the old READER refused the current writer's update image of a type 1 file ("truncated"): the reader had to learn the
+    missing-terminator rule together with the writer's new length -/
+theorem voc_old_reader_refuses_new_image : Old.parse (snapshotBytes exU8m 0 [.write [1, 2, 3] false]) = .err := by decide +kernel
+
+example : parse (snapshotBytes exPcm 5 [.write [1, 2, 3, 4] false]) = .ok ⟨2, 0x080002, 44100, 1⟩ := by decide +kernel
+example : parse (snapshotBytes exLaw 5 [.write [1, 2, 3, 4] false]) = .ok ⟨1, 0x080010, 8000, 4⟩ := by decide +kernel
 
 /-- header updates never change the finished file: with or without them the closed bytes are equal -/
 theorem voc_updates_dont_change_file (c : Cfg) (stale : Nat) (ops : List WOp) :
